@@ -29,11 +29,12 @@ func wireStructs(p *Prog) map[*types.Struct]bool {
 var censusSkip func(ssa.Instruction) bool
 var censusRange func(ssa.Value) (int, int, bool)
 
-func panicCensus(r *Run, p *Prog, T *Terms, rule string, fns map[*ssa.Function]bool) int {
+func panicCensus(r *Run, p *Prog, T *Terms, rule string, fns0 map[*ssa.Function]bool) int {
 	n := 0
 	wires := wireStructs(p)
+	fns := censusViews(p, fns0)
 	for f := range fns {
-		if !p.InRepo(f) || f.Blocks == nil {
+		if !p.InRepo(origFn(f)) || f.Blocks == nil {
 			continue
 		}
 		fn := shortName(f)
@@ -339,4 +340,104 @@ func typeStr(t types.Type) string {
 		return "an unknown dynamic type"
 	}
 	return types.TypeString(t, shortQual)
+}
+
+// censusViews: the functions the census looks at. A small unexported helper whose every use is a static call from a
+// function of the set (`func (f frame) payload() []byte { return f[:len(f)-1] }`) is looked at where it is called: the
+// callers are replaced by their inlined views with these helpers inlined (inline.go), and the helper's own body is
+// dropped - its sites appear, at their source positions, in every caller, with the caller's facts (e.g. "the read
+// succeeded, so the frame is not empty"). Everything else is analysed as built.
+func censusViews(p *Prog, fns map[*ssa.Function]bool) map[*ssa.Function]bool {
+	cg := BuildCallGraph(p)
+	usedAsValue := map[*ssa.Function]bool{}
+	for _, f := range p.Funcs {
+		for _, b := range f.Blocks {
+			for _, in := range b.Instrs {
+				var callee ssa.Value
+				if ci, ok := in.(ssa.CallInstruction); ok && !ci.Common().IsInvoke() {
+					callee = ci.Common().Value
+				}
+				for _, op := range in.Operands(nil) {
+					if g, ok := (*op).(*ssa.Function); ok && *op != callee {
+						usedAsValue[g] = true
+					}
+					if mc, ok := (*op).(*ssa.MakeClosure); ok && *op != callee {
+						if g, ok := mc.Fn.(*ssa.Function); ok && g.Synthetic != "" {
+							// bound method value: the method is used as a value
+							for _, cs := range callsIn(g, false) {
+								if t := cs.Common.StaticCallee(); t != nil {
+									usedAsValue[t] = true
+								}
+							}
+						}
+					}
+				}
+			}
+		}
+	}
+	helper := map[*ssa.Function]bool{}
+	for g := range fns {
+		if g.Parent() != nil || g.Object() == nil || g.Object().Exported() || len(g.Blocks) == 0 || usedAsValue[g] || len(g.AnonFuncs) > 0 {
+			continue
+		}
+		sites := cg.Callers[g]
+		if len(sites) == 0 {
+			continue
+		}
+		ok := true
+		inScope := 0
+		for _, cs := range sites {
+			root := cs.Fn
+			for root.Parent() != nil {
+				root = root.Parent()
+			}
+			if !(fns[cs.Fn] || fns[root]) {
+				continue // a caller outside the scope of this census (e.g. client code for a service-side census)
+			}
+			inScope++
+			if cs.Common.StaticCallee() != g {
+				ok = false // dynamic dispatch
+			}
+			if _, isCall := cs.Instr.(*ssa.Call); !isCall {
+				ok = false // go / defer
+			}
+		}
+		// small: straight-line or a couple of branches
+		ninstr := 0
+		for _, b := range g.Blocks {
+			ninstr += len(b.Instrs)
+		}
+		if ok && inScope > 0 && ninstr <= 40 {
+			helper[g] = true
+		}
+	}
+	if len(helper) == 0 {
+		return fns
+	}
+	out := map[*ssa.Function]bool{}
+	keep := func(callee *ssa.Function) bool { return !helper[callee] }
+	for f := range fns {
+		if helper[f] {
+			continue
+		}
+		callsHelper := false
+		for _, cs := range callsIn(f, false) {
+			if helper[cs.Common.StaticCallee()] {
+				callsHelper = true
+			}
+		}
+		if !callsHelper {
+			out[f] = true
+			continue
+		}
+		v := p.Inlined(f, keep)
+		// every call of a helper must be gone, otherwise the helper is analysed on its own as well
+		for _, cs := range callsIn(v, false) {
+			if t := cs.Common.StaticCallee(); helper[t] {
+				out[t] = true
+			}
+		}
+		out[v] = true
+	}
+	return out
 }
